@@ -55,7 +55,7 @@ def label_schemes(nruns, full):
     out = [(0, 1)]
     if full:
         out += [(-3, 1), (199501, 1), (0, 5), (-3, 5), (I32MAX - (nruns - 1), 1),
-                (I32MAX - 5 * (nruns - 1), 5), (-2 ** 31, 7)]
+                (I32MAX - 5 * (nruns - 1), 5), (-2 ** 31, 7), ("spread", 0)]
     return out
 
 
@@ -108,8 +108,14 @@ def feq(a, b, rel=1e-12):
 def index_of(runs, scheme):
     s, st = scheme
     idx = []
+    n = len(runs)
     for k, r in enumerate(runs):
-        idx += [s + k * st] * r
+        if s == "spread":
+            # labels spread over the whole int32 range: consecutive labels are up to 2**32-1 apart
+            lab = -2 ** 31 if n == 1 else -2 ** 31 + (k * (2 ** 32 - 1)) // (n - 1)
+        else:
+            lab = s + k * st
+        idx += [lab] * r
     return np.array(idx, dtype=np.int64)
 
 
@@ -212,6 +218,20 @@ def check_inversions(ctx, dutils, runs, vals, case_base):
         return
     x = np.array(vals, dtype=np.float64)
     base = index_of(runs, (0, 1))
+    # a decrease by more than 2**31 (first run at INT32_MAX, the others at INT32_MIN)
+    widx = np.array([I32MAX] * runs[0] + [-2 ** 31] * (len(vals) - runs[0]), dtype=np.int64)
+    for fname in ("aggregate", "flathomogen"):
+        case = dict(case_base, inversion="wrap", func=fname, index=widx.tolist())
+        try:
+            out = dutils.aggregate(widx, x, 0, len(vals)) if fname == "aggregate" else dutils.flathomogen(widx, x, len(vals))
+            ctx.case(True)
+            ctx.violation("%s:inversion-accepted:wrap" % fname, case, "decreasing index %s accepted, returned %s" % (widx.tolist(), out.tolist()))
+        except ValueError:
+            ctx.case(True, outcome="raise")
+            ctx.count("inversion.rejected")
+        except Exception as e:
+            ctx.case(True)
+            ctx.violation("%s:inversion:wrong-exception" % fname, case, "raised %r instead of ValueError" % (e,))
     for k in range(len(runs) - 1):
         labels = list(range(len(runs)))
         labels[k], labels[k + 1] = labels[k + 1], labels[k]
